@@ -68,8 +68,9 @@ def cases(tier, seed):
         holes = holes_for(pat, nI, nX, rng)
         ils = rng.choice([1, 2, 3, 5, 10])
         xls = rng.choice([s for s in [1, 2, 3, 4, 7] if s != ils] if i % 2 else [ils])
-        il0 = rng.choice([1, 5, 100, -3, -50, 1000, -1000])
-        xl0 = rng.choice([1, 20, -7, -400, 0, 3000])
+        # (line numbers beyond 2**24 included: they do not survive a detour through float32)
+        il0 = rng.choice([1, 5, 100, -3, -50, 1000, -1000, 20000001])
+        xl0 = rng.choice([1, 20, -7, -400, 0, 3000, 16777217])
         rate, bs = rng.choice(lays)
         src = conv.src_desc(rng, 'irregular', (nI, nX, rng.choice([3, 8, 21])), holes=holes, il=[il0, ils], xl=[xl0, xls],
                             hdr={'seed': rng.randrange(1 << 20), 'nfields': rng.randint(0, 4), 'inside': True},
